@@ -67,6 +67,9 @@ def states(tier, seed):
     # (e') every ordered pair of the configuration menu executed in a FRESH interpreter: B after A must equal B alone
     for a_, b_ in itertools.permutations(range(len(FRESH_MENU)), 2):
         st.append(dict(part="fresh", a=a_, b=b_, fam=fam))
+    # (d') the user's mesh array in another memory layout (Fortran order, strided view, read-only): identical results
+    for cfg, layout in itertools.product(LAYOUT_MENU, ["f", "nc", "ro"]):
+        st.append(dict(part="layout", cfg=cfg, layout=layout, fam=fam))
     # (e'') the mesh generator: every ordered pair of mesh dictionaries (also twice the same), second one compared with a fresh interpreter
     for a_, b_ in itertools.product(range(len(GEN_MENU)), repeat=2):
         st.append(dict(part="genfresh", a=a_, b=b_, fam=fam))
@@ -124,6 +127,37 @@ def config_menu(tier):
             continue
         out.append(dict(kind="multisec", nsec=nsec, user=user, le=le, shift=shift))
     return out
+
+
+LAYOUT_MENU = [
+    dict(kind="aero", sym=True, comp=False, ground=False, visc=True, wave=True, ns=2),
+    dict(kind="aero", sym=False, comp=True, ground=False, visc=True, wave=False, ns=1, geomvars=True),
+    dict(kind="aero", sym=True, comp=False, ground=True, visc=False, wave=False, ns=1, size=(4, 3)),
+    dict(kind="as", model="tube", sym=True, relief=True),
+    dict(kind="as", model="wingbox", sym=False, relief=True),
+    dict(kind="struct", model="wingbox", sym=True),
+]
+
+
+def part_layout(s):
+    outs = []
+    for layout in (None, s["layout"]):
+        p, surfs, of, wrt = make_model(dict(s["cfg"], layout=layout), s["fam"])
+        p.run_model()
+        tot = p.compute_totals(of=of, wrt=wrt)
+        outs.append((all_outputs(p), {k: np.array(v) for k, v in tot.items()}))
+    viol, val = [], 0
+    (o0, t0), (o1, t1) = outs
+    val += 1
+    if not (o0.shape == o1.shape and np.array_equal(o0, o1)):
+        e = float(np.abs(o0 - o1).max()) if o0.shape == o1.shape else float("inf")
+        viol.append(dict(sig=dict(oracle="independent_of_memory_layout", layout=s["layout"], kind=s["cfg"]["kind"], what="outputs"), msg="the outputs differ (%.2e) when the user's mesh array is %s" % (e, {"f": "Fortran-ordered", "nc": "a strided view", "ro": "read-only"}[s["layout"]]), measure=1.0))
+    for key in t0:
+        val += 1
+        if not np.array_equal(t0[key], t1[key]):
+            viol.append(dict(sig=dict(oracle="independent_of_memory_layout", layout=s["layout"], kind=s["cfg"]["kind"], what="totals"), msg="total derivative %s differs when the user's mesh array is in layout %s" % (key, s["layout"]), measure=1.0))
+            break
+    return dict(viol=viol, nontrivial=True, digest="layout:%s:%s" % (s["layout"], digest_arrays(o0)), transitions=4, validated=val)
 
 
 GEN_MENU = [
@@ -190,8 +224,12 @@ def expect(viol, s, fn, exc):
             fn()
     except exc:
         raised = "ok"
-    except Exception as e:  # noqa
+    except om.AnalysisError as e:  # noqa
+        # a solver that fails to converge is not a rejection of the input
         raised = type(e).__name__
+    except Exception:  # noqa
+        # the property asks for "an error instead of numbers": an exception of another type than the documented one still is one
+        raised = "ok"
     if raised != "ok":
         sig = {k: v for k, v in s.items() if k in ("what", "group", "key", "delta")}
         viol.append(dict(sig=dict(oracle="rejected_loudly", got=str(raised), **sig), msg="%s: expected %s, got %s" % (s, getattr(exc, "__name__", exc), raised or "no exception (numbers were produced)"), measure=1.0))
@@ -356,6 +394,21 @@ def part_keyseq(s):
 
 
 # ------------------------------------------------------------------ admissible configurations
+def relayout(m, layout):
+    """the same mesh values in another memory layout: Fortran order, a strided view of a larger array, a read-only array"""
+    if layout == "f":
+        return np.asfortranarray(m)
+    if layout == "nc":
+        big = np.full((m.shape[0] * 2, m.shape[1] * 2, 3), 7.7)
+        big[::2, ::2] = m
+        return big[::2, ::2]
+    if layout == "ro":
+        r = m.copy()
+        r.setflags(write=False)
+        return r
+    return m
+
+
 def make_model(cfg, fam, mode="rev"):
     """returns (problem, user_arrays, of, wrt): user_arrays = every array the user put into the surface dictionaries"""
     if cfg["kind"] == "aero":
@@ -366,6 +419,7 @@ def make_model(cfg, fam, mode="rev"):
             if i == 0 and "size" in cfg:
                 nx_, ny_ = cfg["size"]
             m = gen.make_mesh(["twdi", "swept", "camber"][i], nx_, ny_, side, fam, asym=not cfg["sym"], offset=[4.5 * i, 0, 0.4 * i])
+            m = relayout(m, cfg.get("layout"))
             kw = dict(with_viscous=cfg["visc"], with_wave=cfg["wave"], twist_cp=np.array([1.0, 2.0, 0.5]), chord_cp=np.array([1.0, 1.1]), t_over_c_cp=np.array([0.12, 0.14]), CD0=0.01)
             if cfg.get("geomvars"):
                 # every geometry variable active at a non-default value (each one reads the user's mesh / control points)
@@ -386,6 +440,7 @@ def make_model(cfg, fam, mode="rev"):
         return make_multisec(cfg, fam, mode)
     if cfg["kind"] == "as":
         m = gen.make_mesh("twdi", 2, cfg.get("ny", 3 if cfg["sym"] else 5), cfg.get("side", "left") if cfg["sym"] else "full", fam, asym=not cfg["sym"], span=10.0, chord=1.6)
+        m = relayout(m, cfg.get("layout"))
         extra = dict(taper=0.9, sweep=4.0, chord_cp=np.array([1.0, 1.05]), t_over_c_cp=np.array([0.12, 0.14])) if cfg.get("geomvars", True) else {}
         s = builders.struct_surface("wing", m, cfg["sym"], cfg["model"], struct_weight_relief=cfg["relief"], with_viscous=True, twist_cp=np.array([2.0, 3.0, 1.0]), **extra)
         alt_values(s, cfg)
@@ -395,6 +450,7 @@ def make_model(cfg, fam, mode="rev"):
         builders.tighten(p)
         return p, [s], ["AS_point_0.CL", "AS_point_0.fuelburn", "AS_point_0.wing_perf.failure"], ["alpha", "wing.twist_cp"]
     m = gen.make_mesh("twdi", 2, cfg.get("ny", 3 if cfg["sym"] else 5), cfg.get("side", "left") if cfg["sym"] else "full", fam, asym=not cfg["sym"], span=10.0, chord=1.6)
+    m = relayout(m, cfg.get("layout"))
     s = builders.struct_surface("wing", m, cfg["sym"], cfg["model"], struct_weight_relief=True, twist_cp=np.array([2.0, 3.0, 1.0]))
     alt_values(s, cfg)
     ny = m.shape[1]
